@@ -476,7 +476,9 @@ func (c *typeCollector) resolveCategories() {
 		def[index] = append(def[index], arrow.Sub[0])
 	}
 
-	if _, ok := byName["TokenSet"]; !ok && len(c.tokenSet) > 0 {
+	_, isCat := byName["TokenSet"]
+	_, isType := c.types["TokenSet"]
+	if !isCat && !isType && len(c.tokenSet) > 0 {
 		// Instantiate a synthetic category: TokenSet (unless the name is already taken).
 		types := container.NewBitSet(len(c.out.RangeTypes))
 		for _, t := range c.tokenSet {
